@@ -31,11 +31,11 @@ def configs(tier):
     bud = 200 if q else 1800
     for bc in ('per', 'sym'):
         for fl in ('rusanov', 'hll'):
-            out.append({'model': 'shallowwater', 'flux': fl, 'bc': bc, 'timeout_ms': max(to, 60000) if fl == 'rusanov' else to, 'budget_s': max(bud, 290), 'lemma': not q, 'guided_tries': 3000, 'guided_min_size': 5})
+            out.append({'model': 'shallowwater', 'flux': fl, 'bc': bc, 'timeout_ms': max(to, 60000) if fl == 'rusanov' else to, 'budget_s': max(bud, 290), 'lemma': False, 'guided_tries': 3000, 'guided_min_size': 5})
         for fl in ('hlle', 'hllc'):
             for g in (['7/5'] if q else ['7/5', '2']):
                 out.append({'model': 'euler1d', 'flux': fl, 'bc': bc, 'gamma': g, 'timeout_ms': to, 'budget_s': max(bud, 500 if fl == 'hlle' else 295),
-                            'lemma': not q, 'guided_tries': 3000, 'guided_min_size': 5})
+                            'lemma': False, 'guided_tries': 3000, 'guided_min_size': 5})
     return out
 
 
